@@ -23,5 +23,6 @@ func init() {
 	alias("C10", "C10.11", "C09.11", "the elastic buffers fill the ring to exactly full at the static limit, which is where a cursor resting at size turns a full ring into an empty one")
 	alias("C08", "C08.8", "C17.8", "SendTo and Write address their datagram through IPToSockaddr")
 	alias("C08", "C08.9", "C17.9", "SendTo relies on `sa == nil` to reject an address it cannot convert")
+	alias("C18", "C18.10", "C07.3", "after a connection failed and was closed, its queued tasks and callbacks must not touch the descriptor number again, or the failure reaches the connection that inherits the number")
 	alias("C10", "C10.6", "C09.6", "the ring half moves data with split copies")
 }
